@@ -111,15 +111,16 @@ def _get_diff_entry_stream(path, blob, ref_name, repo_dir):
         if ref_name is GitRefWorkingTree:
             # Diffing against working copy, use file on disk!
             with pushd(repo_dir):
-                # We are diffing against working dir, so ensure we apply
-                # any git filters before comparing:
-                ret = apply_possible_filter(path)
-                # ret == path means no filter was applied
-                if ret != path:
-                    return ret
                 try:
+                    # We are diffing against working dir, so ensure we apply
+                    # any git filters before comparing:
+                    ret = apply_possible_filter(path)
+                    # ret == path means no filter was applied
+                    if ret != path:
+                        return ret
                     return io.open(path, encoding='utf-8')
                 except IOError:
+                    # (also when the filter cannot open a deleted file)
                     return EXPLICIT_MISSING_FILE
         elif blob is None:
             # GitPython uses a None blob to indicate if a file was deleted or
